@@ -22,7 +22,8 @@ CHECKS["C05"] = dict(
     exhaustive_part="part (b): every sequence of the stated depth over the stated alphabet is run",
     assumptions=MEMSEQ_ASSUME,
     min_nontrivial=50,
-    jobs=[dict(cmd="memseq", args={"prop": "C05"}, tiers=["quick", "thorough"], timeout=1500)],
+    jobs=[dict(cmd="memseq", args={"prop": "C05"}, tiers=["quick", "thorough"], timeout=1500),
+          dict(cmd="memseq", args={"prop": "C05"}, flavour="miri", tier_arg="miri", tiers=["thorough"], timeout=3000)],
 )
 
 CHECKS["C13"] = dict(
@@ -36,7 +37,8 @@ CHECKS["C13"] = dict(
     exhaustive_part="every sequence of depth 3 (quick) / 4 (thorough) over the C13 alphabet, 5 algorithms",
     assumptions=MEMSEQ_ASSUME + ["disk-only (phantom) entries are judged on their single pipe offer only, not on the number of notifications"],
     min_nontrivial=50,
-    jobs=[dict(cmd="memseq", args={"prop": "C13"}, tiers=["quick", "thorough"], timeout=1500)],
+    jobs=[dict(cmd="memseq", args={"prop": "C13"}, tiers=["quick", "thorough"], timeout=1500),
+          dict(cmd="memseq", args={"prop": "C13"}, flavour="miri", tier_arg="miri", tiers=["thorough"], timeout=3000)],
 )
 
 CHECKS["C18"] = dict(
@@ -50,7 +52,8 @@ CHECKS["C18"] = dict(
     exhaustive_part="every sequence of depth 3 (quick) / 4 (thorough) over the C18 alphabet, 5 algorithms",
     assumptions=MEMSEQ_ASSUME,
     min_nontrivial=50,
-    jobs=[dict(cmd="memseq", args={"prop": "C18"}, tiers=["quick", "thorough"], timeout=1500)],
+    jobs=[dict(cmd="memseq", args={"prop": "C18"}, tiers=["quick", "thorough"], timeout=1500),
+          dict(cmd="memseq", args={"prop": "C18"}, flavour="miri", tier_arg="miri", tiers=["thorough"], timeout=3000)],
 )
 
 CHECKS["C14"] = dict(
@@ -68,7 +71,8 @@ CHECKS["C14"] = dict(
                  "the count-min sketch of w-TinyLFU is the same third-party crate with the same parameters (trusted base)",
                  "hash(key) == key"],
     min_nontrivial=50,
-    jobs=[dict(cmd="c14", tiers=["quick", "thorough"], timeout=1500)],
+    jobs=[dict(cmd="c14", tiers=["quick", "thorough"], timeout=1500),
+          dict(cmd="c14", flavour="miri", tier_arg="miri", tiers=["thorough"], timeout=3000)],
 )
 
 LIN_ASSUME = [
@@ -90,7 +94,8 @@ CHECKS["C02"] = dict(
     assumptions=LIN_ASSUME,
     min_nontrivial=50,
     jobs=[dict(cmd="c02", tiers=["quick", "thorough"], timeout=1500),
-          dict(cmd="c02", flavour="tsan", tiers=["thorough"], timeout=2400, shards=8, env={"TSAN_OPTIONS": "halt_on_error=1 second_deadlock_stack=1"})],
+          dict(cmd="c02", flavour="tsan", tiers=["thorough"], timeout=2400, shards=8, env={"TSAN_OPTIONS": "halt_on_error=1 second_deadlock_stack=1"}),
+          dict(cmd="c02", flavour="miri", tier_arg="miri", tiers=["thorough"], timeout=3000)],
 )
 
 HYB_ASSUME = [
@@ -116,7 +121,8 @@ CHECKS["C01"] = dict(
           "held; distinct = hash of (configuration, script)."),
     assumptions=HYB_ASSUME,
     min_nontrivial=20,
-    jobs=[dict(cmd="c01", tiers=["quick", "thorough"], timeout=2400)],
+    jobs=[dict(cmd="c01", tiers=["quick", "thorough"], timeout=2400),
+          dict(cmd="c01", flavour="asan", tier_arg="quick", tiers=["thorough"], timeout=3000, env={"ASAN_OPTIONS": "detect_leaks=0:halt_on_error=1:abort_on_error=0"})],
 )
 
 FETCH_ASSUME = [
@@ -234,7 +240,8 @@ CHECKS["C08"] = dict(
     assumptions=["the `serde` (bincode) Code path is not compiled into the harness (feature off); only the built-in impls are judged",
                  "String payloads are ASCII in the pipeline part (multi-byte strings are covered in part A)"],
     min_nontrivial=50,
-    jobs=[dict(cmd="c08", tiers=["quick", "thorough"], timeout=2400)],
+    jobs=[dict(cmd="c08", tiers=["quick", "thorough"], timeout=2400),
+          dict(cmd="c08", flavour="asan", tier_arg="quick", tiers=["thorough"], timeout=3000, env={"ASAN_OPTIONS": "detect_leaks=0:halt_on_error=1:abort_on_error=0"})],
 )
 
 CHECKS["C15"] = dict(
@@ -265,7 +272,8 @@ CHECKS["C17"] = dict(
     assumptions=LIN_ASSUME + HYB_ASSUME,
     min_nontrivial=20,
     jobs=[dict(cmd="c17mem", tiers=["quick", "thorough"], timeout=1500),
-          dict(cmd="c17hyb", tiers=["quick", "thorough"], timeout=2400)],
+          dict(cmd="c17hyb", tiers=["quick", "thorough"], timeout=2400),
+          dict(cmd="c17mem", flavour="tsan", tier_arg="quick", tiers=["thorough"], timeout=3000, shards=8, env={"TSAN_OPTIONS": "halt_on_error=1 second_deadlock_stack=1"})],
 )
 
 
@@ -320,7 +328,8 @@ CHECKS["C03"] = dict(
         "a process abort is attributed to the case recorded in the progress file before the case started",
     ],
     min_nontrivial=20,
-    jobs=[dict(cmd="c03", tiers=["quick", "thorough"], timeout=3000)],
+    jobs=[dict(cmd="c03", tiers=["quick", "thorough"], timeout=3000),
+          dict(cmd="c03", flavour="asan", tier_arg="quick", tiers=["thorough"], timeout=3000, env={"ASAN_OPTIONS": "detect_leaks=0:halt_on_error=1:abort_on_error=0"})],
 )
 
 CHECKS["C09"] = dict(
@@ -343,7 +352,10 @@ CHECKS["C09"] = dict(
         "clean_block_threshold = 0 is excluded (the engine never reclaims by construction)",
         "the reinsertion clause is judged only at the final quiescent point (phase-separated)",
         "write-on-insertion policy, so that every insert reaches the disk tier",
+        "client-side backpressure: clients call wait() before more than a quarter of the device is queued for the disk tier and the io gates open at the same bound, so a single flush batch never spans most of the device (a batch that does is reclaimed while it is still being written - observed, see DESIGN.md section 7)",
     ],
     min_nontrivial=10,
-    jobs=[dict(cmd="c09", tiers=["quick", "thorough"], timeout=3000)],
+    jobs=[dict(cmd="c09", tiers=["quick", "thorough"], timeout=3000),
+          dict(cmd="c09", flavour="asan", tier_arg="quick", tiers=["thorough"], timeout=3000, env={"ASAN_OPTIONS": "detect_leaks=0:halt_on_error=1:abort_on_error=0"}),
+          dict(cmd="c09", flavour="tsan", tier_arg="quick", tiers=["thorough"], timeout=3000, env={"TSAN_OPTIONS": "halt_on_error=1 second_deadlock_stack=1"})],
 )
